@@ -177,7 +177,12 @@ def restored(a, keys):
 
 
 # ---------------------------------------------------------------------------------------------- window.write (assumed)
+WRITE_HOOKS = []       # other ghost terminals (C02) interpret the written value as well
+
+
 def _write_effect(a, st, res):
+    for h in WRITE_HOOKS:
+        h(a, st)
     if "os.cursor" in st.ghost:
         feed(st, a._raw["msg"] if isinstance(a._raw["msg"], str) else None)
 
